@@ -98,6 +98,7 @@ impl Callback for Balances {
             self.writer
                 .write_all(format!("{};{}\n", address, balance).as_bytes())?;
         }
+        self.writer.flush()?;
 
         fs::rename(
             self.dump_folder.as_path().join("balances.csv.tmp"),
